@@ -20,17 +20,34 @@ RULE = ('abstract records of the seven table types are drawn field by field from
         'of sample records (error kinds, tie only).  A case is distinct by its encoded bytes and non-trivial when '
         'the record has a body.')
 ASSUMPTIONS = [
-    'hand-written model lean/PyIpmi/Model/SdrParse.lean (every _from_data, TypeLengthString, _unpack6bitascii, '
-    'bcd_decode) tied by this correspondence run; the dispatch table and BCD map are regenerated from the working '
-    'tree every run (Gen/SdrTables.lean)',
+    'GENERATED every run from the AST of the working tree (harness/translate/sdrexpr.py -> Gen/SdrExpr.lean, one Lean '
+    'definition per source statement, fail closed outside its grammar): every right-hand side that combines bits in '
+    'the seven _from_data methods, _common_record_key, _device_id_string and _convert_complement of pyipmi/sdr.py '
+    '(units sub-fields, linearisation mask, M / B reassembly + 10-bit sign extension, tolerance, accuracy, accuracy '
+    'exponent, K1 / K2 + 4-bit sign extension, owner LUN, 7-bit addresses, channel, 20-bit manufacturer id, id-string '
+    'type / length masks and slice bound), TypeLengthString._from_data (type, length, slice bounds, decoder selection) '
+    'and the four character expressions of _unpack6bitascii of pyipmi/fields.py, the flag masks + names of bytes 11 / 31, '
+    'the order and sizes of all pops; theorems gen_parseFull_eq ... gen_parseOem_eq, gen_idString_eq, gen_unpack6_eq '
+    'prove that the model (Variant.intended) computes every attribute with exactly the generated expression, so '
+    'parse_encode_* speak about the expressions the code contains today (a changed mask / shift / operator / '
+    'precedence makes Props/C16 fail to build)',
+    'hand-written (lean/PyIpmi/Model/SdrParse.lean) and tied by this correspondence run only: the control skeleton '
+    'around the expressions - which popped byte feeds which expression (the generated pop order / sizes are pinned as '
+    'golden lists by gen_layouts, not against the model\'s list patterns), DecodingError on a short buffer, ignored '
+    'trailing bytes, exception kinds -, ByteBuffer.pop_unsigned_int (leOr), _decode_capabilities, utils.bcd_decode; '
+    'the dispatch table and the BCD map are regenerated (Gen/SdrTables.lean)',
+    'in the generated definitions a popped value / buffer byte is a Nat (ByteBuffer yields 0..255 per byte) and the '
+    'arguments of _convert_complement are Nat: Python int semantics of & | ^ << >> on non-negative ints',
     'the specification covers the attributes named by the tables; `capabilities` of the full sensor record, '
     '`global_initialization` of the MC locator and the key attributes of OEM records are compared with the model only',
     'id-string length is the number of data bytes ([4:0] of the type/length byte, bit 5 reserved = 0); a 6-bit string '
     'of 4k+3 characters reads back with one trailing space (three bytes always hold four characters)',
-    'the six deviations of the pinned source are carried as Variant flags; the run probes the real code with one '
-    'witness per flag to choose the variant the model must agree with',
+    'the six deviations of the ORIGINAL pinned source (repaired in /repo since) stay in the model as Variant flags: '
+    '*_counterexample theorems about the frozen asShipped variant are documentation; the generated expressions are '
+    'equated with Variant.intended; the run still probes the real code with one witness per flag, so a returning '
+    'defect is reported with a concrete input while the gen_* theorems stop building',
 ]
-TRUSTED = ['harness/translate/sdr.py', 'harness/props/c16.py', 'harness/sdr_common.py']
+TRUSTED = ['harness/translate/sdr.py', 'harness/translate/sdrexpr.py', 'harness/props/c16.py', 'harness/sdr_common.py']
 
 CLASS_OF_KIND = ['SdrFullSensorRecord', 'SdrCompactSensorRecord', 'SdrEventOnlySensorRecord',
                  'SdrFruDeviceLocator', 'SdrManagementControllerDeviceLocator',
